@@ -28,6 +28,8 @@ open ScVerif.C02 (setAt setAt_same setAt_other)
 
 structure Event (M : Type) where
   id : Nat
+  /-- `CollectionChange.OldValue`: the stored value before the commit (`none`: the id was absent, an ADD) -/
+  old : Option M
   /-- `some v`: ADD/UPDATE/REPLACE carrying `v`; `none`: REMOVE -/
   new : Option M
   /-- change type ADD (the only kind `mergeChanges` cancels against a following REMOVE) -/
@@ -66,6 +68,8 @@ structure Sub (M : Type) where
   lossy : Bool
   /-- read mask, as the projection the forwarder applies to every message -/
   mask : M → M
+  /-- `WithInclude` (`none`: no include function: `include` returns the change as it is) -/
+  incl : Option (Nat → M → Bool)
   /-- contents at the subscribe step: the seed (for an updates-only subscriber: ghost, what it must already know) -/
   base : Nat → Option M
   /-- events the consumer has received, in order (before the mask) -/
@@ -83,6 +87,53 @@ def Sub.rawView {M : Type} (s : Sub M) : Nat → Option M := s.evs.foldl applyEv
 def Sub.view {M : Type} (s : Sub M) : Nat → Option M := fun i => (s.rawView i).map s.mask
 
 def Sub.live {M : Type} (s : Sub M) : Bool := s.registered && !s.cancelled
+
+/-! ### The forwarder goroutine of `Collection.Pull`: include, then read mask
+
+Seeds: `itemSlice` drops the stored items the include function excludes, then every seed change is filtered
+through the read mask.  Events: `change.include(readConfig.Include)` judges the STORED old / new values
+(an absent value is never included), turns a change that moves an item into / out of the included set into an
+ADD / REMOVE and drops a change of an item that stays excluded; only then `change.filter(filter)` applies the
+read mask.  `Value.Pull` has no include function (`incl = none`). -/
+
+/-- is the (possibly absent) stored value included?  `includeFunc == nil`: everything that exists -/
+def inclOpt {M : Type} (incl : Option (Nat → M → Bool)) (i : Nat) : Option M → Bool
+  | none => false
+  | some v => match incl with
+    | none => true
+    | some f => f i v
+
+/-- `(*CollectionChange).include` followed by `(*CollectionChange).filter`, as the event loop of `Pull` does -/
+def fwdEv {M : Type} (incl : Option (Nat → M → Bool)) (mask : M → M) (e : Event M) : Option (Event M) :=
+  match incl with
+  | none => some { e with old := e.old.map mask, new := e.new.map mask }
+  | some _ =>
+    let oi := inclOpt incl e.id e.old
+    let ni := inclOpt incl e.id e.new
+    if oi = ni then
+      (if ni then some { e with old := e.old.map mask, new := e.new.map mask } else none)
+    else if ni then some { e with old := none, new := e.new.map mask, isAdd := true }   -- treat this like an Add
+    else some { e with old := e.old.map mask, new := none, isAdd := false }              -- treat this like a remove
+
+/-- the seed values as the consumer receives them: included items only, each through the read mask -/
+def seedView {M : Type} (incl : Option (Nat → M → Bool)) (mask : M → M) (v : Nat → Option M) : Nat → Option M :=
+  fun i => ((v i).filter (fun x => inclOpt incl i (some x))).map mask
+
+/-- the changes the consumer receives after the seed: every event taken from the stage, through the forwarder -/
+def Sub.obs {M : Type} (s : Sub M) : List (Event M) := s.evs.filterMap (fwdEv s.incl s.mask)
+
+/-- the consumer's folded view: received changes applied in order to the received seed -/
+def Sub.obsView {M : Type} (s : Sub M) : Nat → Option M := s.obs.foldl applyEv (seedView s.incl s.mask s.base)
+
+/-- `Collection.PullID id`: the values delivered on the stream of one item — the item's seed (if it is included),
+then the new value of every change of this id, up to (not including) the first REMOVE, which ends the stream -/
+def Sub.pullID {M : Type} (s : Sub M) (id : Nat) : List M :=
+  ((seedView s.incl s.mask s.base id).toList ++
+    ((s.obs.filter (fun e => e.id == id)).takeWhile (fun e => e.new.isSome)).filterMap (·.new))
+
+/-- the PullID stream has ended: a REMOVE of the item was received -/
+def Sub.pullIDEnded {M : Type} (s : Sub M) (id : Nat) : Bool :=
+  (s.obs.filter (fun e => e.id == id)).any (fun e => e.new.isNone)
 
 structure Cfg (M : Type) where
   store : Nat → Option M
@@ -113,7 +164,7 @@ def mergeInto : List (Event M) → Event M → List (Event M)
   | [], e => [e]
   | a :: P, e =>
     if a.id = e.id then
-      (if a.isAdd && e.new.isNone then P else P ++ [{ e with isAdd := a.isAdd }])
+      (if a.isAdd && e.new.isNone then P else P ++ [{ e with isAdd := a.isAdd, old := a.old }])
     else a :: mergeInto P e
 
 def Cfg.popOp (c : Cfg M) (t : Nat) (rest : List (WOp M)) (busy : Bool) : Cfg M :=
@@ -135,7 +186,7 @@ def stepCommit (c : Cfg M) (t : Nat) : Cfg M :=
     match f (c.store id) with
     | none => c.popOp t rest false
     | some v =>
-      let e : Event M := ⟨id, some v, (c.store id).isNone, c.nextSeq⟩
+      let e : Event M := ⟨id, c.store id, some v, (c.store id).isNone, c.nextSeq⟩
       { c.popOp t rest true with
         store := applyEv c.store e, nextSeq := c.nextSeq + 1,
         pubs := c.pubs ++ [⟨t, e, none, false, false⟩] }
@@ -144,7 +195,7 @@ def stepCommit (c : Cfg M) (t : Nat) : Cfg M :=
     | none => c.popOp t rest false
     | some b =>
       if p b then
-        let e : Event M := ⟨id, none, false, c.nextSeq⟩
+        let e : Event M := ⟨id, some b, none, false, c.nextSeq⟩
         if c.listeners.isEmpty then
           { c.popOp t rest false with store := applyEv c.store e, nextSeq := c.nextSeq + 1 }
         else
@@ -211,16 +262,18 @@ def step (c : Cfg M) : Act → Cfg M
 
 def run (c : Cfg M) (sched : List Act) : Cfg M := sched.foldl step c
 
-/-- subscriber options: updates-only, lossy, read mask -/
+/-- subscriber options: updates-only, lossy, read mask, include function -/
 structure SubOpts (M : Type) where
   updatesOnly : Bool
   lossy : Bool
   mask : M → M
+  incl : Option (Nat → M → Bool) := none
 
 def initCfg (s₀ : Nat → Option M) (progs : Nat → List (WOp M)) (opts : Nat → SubOpts M) : Cfg M :=
   { store := s₀, nextSeq := 0, lock := none, listeners := [], pubs := []
     writers := fun t => ⟨progs t, false⟩
-    subs := fun s => ⟨false, false, (opts s).updatesOnly, (opts s).lossy, (opts s).mask, fun _ => none, [], [], [], 0⟩ }
+    subs := fun s => ⟨false, false, (opts s).updatesOnly, (opts s).lossy, (opts s).mask, (opts s).incl,
+      fun _ => none, [], [], [], 0⟩ }
 
 /-- the copies of a publication's event still to reach subscriber `s` (given `s` is live) -/
 def copies (s : Nat) (p : Pub M) : List (Event M) :=
@@ -238,9 +291,10 @@ def cancels : List (Event M) → Event M → Bool
   | [], _ => false
   | a :: P, e => if a.id = e.id then a.isAdd && e.new.isNone else cancels P e
 
-/-! ### "Publications delivered in commit order" as a condition on the steps of a run
+/-! ### "Publications of one id delivered in commit order" as a condition on the steps of a run
 
-* a delivery to a live subscriber `s` is the one of the EARLIEST commit still owed to `s`;
+* a delivery to a live subscriber `s` is the one of the EARLIEST commit OF THAT ID still owed to `s`
+  (publications of different ids may reach it in any order);
 * when a subscriber registers, every committed publication whose `Bus.Send` has not started yet still
   carries the current value of its id (it has not been overtaken by a later commit's publication); and a
   LOSSY subscriber registers only when no committed publication is still waiting for its `Bus.Send` at all
@@ -252,7 +306,8 @@ def okStep [DecidableEq M] (c : Cfg M) : Act → Bool
     | [] => true
     | p :: _ =>
       match p.stage with
-      | some (s :: _) => !(c.subs s).live || (c.pubs.take k).all (fun q => (copies s q).isEmpty)
+      | some (s :: _) =>
+        !(c.subs s).live || (c.pubs.take k).all (fun q => (copies s q).all (fun a => a.id != p.ev.id))
       | _ => true
   | .sub s =>
     c.pubs.all (fun p => p.stage.isSome || (!(c.subs s).lossy && decide (c.store p.ev.id = p.ev.new)))
